@@ -148,7 +148,11 @@ pub fn classify(f: &P) -> Class {
 
 /// recursive reference interpreter, memoised on nodes (numbering independent)
 pub fn reference_eval(f: &P, inputs: &[u64]) -> (Vec<u64>, Vec<(u8, Vec<u64>)>) {
-    fn value(f: &P, inputs: &[u64], memo: &mut Vec<Option<u64>>, v: usize) -> u64 {
+    reference_eval_with(f, inputs, &interp)
+}
+
+pub fn reference_eval_with(f: &P, inputs: &[u64], interp: &dyn Fn(&u8, &[u64]) -> Vec<u64>) -> (Vec<u64>, Vec<(u8, Vec<u64>)>) {
+    fn value(f: &P, inputs: &[u64], interp: &dyn Fn(&u8, &[u64]) -> Vec<u64>, memo: &mut Vec<Option<u64>>, v: usize) -> u64 {
         if let Some(x) = memo[v] {
             return x;
         }
@@ -156,15 +160,15 @@ pub fn reference_eval(f: &P, inputs: &[u64]) -> (Vec<u64>, Vec<(u8, Vec<u64>)>) 
             inputs[p]
         } else {
             let (e, j) = f.edges.iter().find_map(|e| e.tgt.iter().position(|&x| x == v).map(|j| (e, j))).expect("read node has a writer");
-            let args: Vec<u64> = e.src.iter().map(|&s| value(f, inputs, memo, s)).collect();
+            let args: Vec<u64> = e.src.iter().map(|&s| value(f, inputs, interp, memo, s)).collect();
             interp(&e.label, &args)[j]
         };
         memo[v] = Some(r);
         r
     }
     let mut memo = vec![None; f.nodes.len()];
-    let outs: Vec<u64> = f.t.iter().map(|&v| value(f, inputs, &mut memo, v)).collect();
-    let mut calls: Vec<(u8, Vec<u64>)> = f.edges.iter().map(|e| (e.label, e.src.iter().map(|&s| value(f, inputs, &mut memo, s)).collect())).collect();
+    let outs: Vec<u64> = f.t.iter().map(|&v| value(f, inputs, interp, &mut memo, v)).collect();
+    let mut calls: Vec<(u8, Vec<u64>)> = f.edges.iter().map(|e| (e.label, e.src.iter().map(|&s| value(f, inputs, interp, &mut memo, s)).collect())).collect();
     calls.sort();
     (outs, calls)
 }
